@@ -47,6 +47,7 @@ const (
 	c05MountMax  = 2 * time.Hour
 	c05TokenMax  = 3 * time.Hour
 	c05MountDflt = 30 * time.Minute
+	c05SystemMax = 32 * 24 * time.Hour // the test core's system-wide maximum lease TTL (768h)
 )
 
 func newC05World(t *testing.T, transactional, ha bool) *c05World {
@@ -54,8 +55,11 @@ func newC05World(t *testing.T, transactional, ha bool) *c05World {
 	tc := mustBoot(t, coreOpts{transactional: transactional, ha: ha,
 		logical: map[string]logical.Factory{"recbe": hub.factory("recbe", logical.TypeLogical)}})
 	tc.mount("rb", "recbe", map[string]any{"default_lease_ttl": "30m", "max_lease_ttl": "2h"})
+	tc.mount("rc", "recbe", nil)
+	tc.mustOK(tc.req(logical.UpdateOperation, "sys/mounts/rc/tune", tc.root, map[string]any{"default_lease_ttl": "1000h"}), "tune rc")
 	tc.mustOK(tc.req(logical.UpdateOperation, "sys/auth/token/tune", tc.root, map[string]any{"max_lease_ttl": "3h", "default_lease_ttl": "1h"}), "tune")
 	tc.writePolicy("c05", `path "rb/*" { capabilities = ["create","read","update","delete","list"] }
+path "rc/*" { capabilities = ["create","read","update","delete","list"] }
 path "sys/leases/*" { capabilities = ["update"] }`)
 	tc.mustOK(tc.req(logical.UpdateOperation, "auth/token/roles/c05max", tc.root, map[string]any{"token_explicit_max_ttl": "40m", "allowed_policies": "default", "orphan": true}), "role c05max")
 	tc.mustOK(tc.req(logical.UpdateOperation, "auth/token/roles/c05per", tc.root, map[string]any{"token_period": "30m", "token_explicit_max_ttl": "80m", "allowed_policies": "default", "orphan": true}), "role c05per")
@@ -183,18 +187,26 @@ func TestVerif_C05_Leases(t *testing.T) {
 				maxTTL := []int{0, 0, 2400, 5400, 30000}[fairIndex(rt, "maxttl", 5)]
 				renewable := fairIndex(rt, "renewable", 4) > 0
 				before := time.Now()
-				r := w.tc.req(logical.UpdateOperation, "rb/creds/s", w.tok, map[string]any{"ttl_seconds": ttl, "max_ttl_seconds": maxTTL, "renewable": renewable})
+				mnt, mountMax := "rb", c05MountMax
+				if fairIndex(rt, "mountWithoutOwnMaximum", 4) == 0 {
+					// rc/ has no maximum of its own (the system maximum applies) and a default tuned ABOVE the system maximum
+					mnt, mountMax = "rc", c05SystemMax
+					if fairIndex(rt, "hugeTTL", 2) == 0 {
+						ttl = 4000000
+					}
+				}
+				r := w.tc.req(logical.UpdateOperation, mnt+"/creds/s", w.tok, map[string]any{"ttl_seconds": ttl, "max_ttl_seconds": maxTTL, "renewable": renewable})
 				if !r.ok() || r.resp == nil || r.resp.Secret == nil || r.resp.Secret.LeaseID == "" {
-					w.logf("secret ttl=%d max=%d -> %v", ttl, maxTTL, r)
+					w.logf("secret %s ttl=%d max=%d -> %v", mnt, ttl, maxTTL, r)
 					return
 				}
-				eff := c05MountMax
+				eff := mountMax
 				if maxTTL > 0 && time.Duration(maxTTL)*time.Second < eff {
 					eff = time.Duration(maxTTL) * time.Second
 				}
 				l := &c05Lease{id: r.resp.Secret.LeaseID, issue: before, effMax: eff, renewable: renewable}
 				w.leases = append(w.leases, l)
-				w.logf("secret ttl=%d max=%d renewable=%v -> ttl %v", ttl, maxTTL, renewable, r.resp.Secret.TTL)
+				w.logf("secret %s ttl=%d max=%d renewable=%v -> ttl %v", mnt, ttl, maxTTL, renewable, r.resp.Secret.TTL)
 				checkBound(l, r.resp.Secret.TTL, "issue")
 			},
 			"token": func(rt *rapid.T) {
